@@ -10,7 +10,7 @@ levels = {c['property_id']: c['level_claimed']['category'] for c in man['checks'
 for f in sorted(glob.glob('/verif/evidence/*.json')):
     try:
         e = json.load(open(f)); jsonschema.validate(e, es)
-        if levels.get(e['property_id']) != e['level']:
+        if e['property_id'] in levels and levels.get(e['property_id']) != e['level']:
             print('LEVEL MISMATCH', f); bad += 1
     except Exception as ex:
         print('INVALID', f, str(ex)[:300]); bad += 1
